@@ -29,11 +29,11 @@ SCALARS = [2, -1, 0.5j, 1 - 1j, 0]
 
 def groups(tier, seed):
     gs = []
-    Ns = (1, 2, 3, 4) if tier == 'quick' else (1, 2, 3, 4, 5, 6)
+    Ns = (1, 2, 3, 4, 5) if tier == 'quick' else (1, 2, 3, 4, 5, 6)
     for fam, syms in MG.FAMILIES.items():
         for sym in syms:
             for N in Ns:
-                if N * {'spin12': 1, 'spinless': 1, 'qdit2': 1, 'spin1': 1.6, 'qdit3': 1.6, 'tJ': 1.6, 'spinful': 2}[fam] > (4.2 if tier == 'quick' else 6.5):
+                if N * {'spin12': 1, 'spinless': 1, 'qdit2': 1, 'spin1': 1.6, 'qdit3': 1.6, 'tJ': 1.6, 'spinful': 2}[fam] > (5.2 if tier == 'quick' else 6.5):
                     continue
                 gs.append({'fam': fam, 'sym': sym, 'N': N, 'depth': 2 if tier == 'quick' else (3 if N <= 3 else 2), 'level': 1 if N <= 3 else 2})
     return gs
@@ -278,7 +278,7 @@ def run_group(g, acc):
     level_states = list(states)
     for depth in range(1, g['depth'] + 1):
         new = []
-        pool = level_states if depth == 1 else level_states[: (10 if acc.tier == 'quick' else 16)]
+        pool = level_states if depth == 1 else level_states[: (14 if acc.tier == 'quick' else 16)]
         for desc, thunk, dref in productions(pool, loc):
             acc.check_time()
             st, y = TC.call(thunk)
@@ -309,7 +309,7 @@ def run_group(g, acc):
                     acc.sample(dict(case_base, expr=desc))
         level_states = new
         states += new
-    meas_states = states[: (14 if acc.tier == 'quick' else 24)]
+    meas_states = states[: (20 if acc.tier == 'quick' else 24)]
     measurements(meas_states, loc, acc, case_base)
     charged_layouts(states, loc, acc, case_base)
     zipper_compression(loc, N, states, acc, case_base)
